@@ -50,6 +50,16 @@ fn graphic(rng: &mut Rng, n: usize) -> String {
     (0..n).map(|_| (0x21 + rng.below(0x5e) as u8) as char).collect()
 }
 
+/// an argument word of n characters: printable ASCII, one word in four with 2/3/4-byte characters
+/// (none of them white space) - the copy must be byte-exact
+fn arg_word(rng: &mut Rng, n: usize) -> String {
+    if rng.chance(3, 4) {
+        return graphic(rng, n);
+    }
+    let pool = ['\u{e9}', '\u{df}', '\u{7ff}', '\u{800}', '\u{3042}', '\u{ffe5}', '\u{fffd}', '\u{1f600}', '\u{10ffff}', '\u{1}', '\u{7f}', '\\', '"', '\''];
+    (0..n).map(|_| if rng.chance(1, 2) { *rng.pick(&pool) } else { (0x21 + rng.below(0x5e) as u8) as char }).collect()
+}
+
 pub fn gen_layout(rng: &mut Rng) -> Layout {
     // ---- segments: ascending, non-overlapping virtual addresses
     let nseg = 1 + rng.below(4) as usize;
@@ -160,18 +170,19 @@ pub fn gen_layout(rng: &mut Rng) -> Layout {
     let mut args = String::new();
     let ws = |rng: &mut Rng| -> String {
         let n = 1 + rng.below(4) as usize;
-        (0..n).map(|_| if rng.chance(1, 3) { '\t' } else { ' ' }).collect()
+        (0..n).map(|_| if rng.chance(1, 3) { *rng.pick(&['\t', '\n', '\r', '\u{c}']) } else { ' ' }).collect()
     };
     if rng.chance(1, 3) {
         args.push_str(&ws(rng));
     }
     for i in 0..nargs {
-        let n = match rng.below(6) {
-            0 => 200,
-            1 => 1,
+        let n = match rng.below(24) {
+            0..=3 => 200,
+            4..=7 => 1,
+            8 => 3000 + rng.below(3000) as usize,
             _ => 1 + rng.below(20) as usize,
         };
-        args.push_str(&graphic(rng, n));
+        args.push_str(&arg_word(rng, n));
         if i + 1 < nargs || rng.chance(1, 3) {
             args.push_str(&ws(rng));
         }
@@ -368,7 +379,8 @@ pub fn expect(l: &Layout) -> Expect {
     let stack_end = align4(BASE + image_end + l.stack_size);
     let tcb_end = align4(stack_end + 88);
     let mut words: Vec<Vec<u8>> = vec![b"prog.elf".to_vec()];
-    for w in l.args.split(|c| c == ' ' || c == '\t').filter(|w| !w.is_empty()) {
+    // separators used by the generator: the ASCII white space every reading of "whitespace" agrees on
+    for w in l.args.split(|c| matches!(c, ' ' | '\t' | '\n' | '\r' | '\u{c}')).filter(|w| !w.is_empty()) {
         words.push(w.as_bytes().to_vec());
     }
     Expect {
@@ -503,7 +515,7 @@ pub fn load_and_judge(seed: u64, which: &str) -> (Layout, Vec<(String, String)>)
             loop {
                 match rd(a) {
                     Some(0) => break,
-                    Some(b) if got.len() < 400 => {
+                    Some(b) if got.len() < 100_000 => {
                         got.push(b);
                         a += 1;
                     }
